@@ -351,6 +351,16 @@ class TaggedUnionConverter(UnionConverter):
             except AttributeError:
                 raise AttributeError(f"Tag '{self.tag}' not found inside type '{ty}'")
 
+    def _tag_index(self, tag: t.Any) -> int:
+        """
+        Index of the variant tagged `tag`. Like a `Literal`, a tag is matched by an equal value
+        of the same type only (`True` and `1.0` are not the tag `1`). Raises `KeyError` otherwise.
+        """
+        i = self.tag_map[tag]
+        if not any(type(k) is type(tag) for k in self.tag_map if k == tag):
+            raise KeyError(tag)
+        return i
+
     def tag_expected(self) -> str:
         """Return a string list of the expected/supported tags"""
         return list_phrase(tuple(map(repr, self.tag_map.keys())))
@@ -414,7 +424,7 @@ class TaggedUnionConverter(UnionConverter):
                 raise ParseInterrupt()
             tag, val = val[t_r], val[c_r]
         try:
-            i = self.tag_map[tag]
+            i = self._tag_index(tag)
         except (KeyError, TypeError):  # TypeError: unhashable tag
             raise ParseInterrupt()
         return self.converters[i].try_convert(val)
@@ -443,7 +453,7 @@ class TaggedUnionConverter(UnionConverter):
                 return WrongTypeError(f"mapping with keys '{t_r}' and '{c_r}'", val)
             tag, val = val[t_r], val[c_r]
         try:
-            i = self.tag_map[tag]
+            i = self._tag_index(tag)
         except (KeyError, TypeError):  # TypeError: unhashable tag
             return WrongTypeError(f"tag '{self.tag}' one of {self.tag_expected()}", tag)
         return self.converters[i].collect_errors(val)
